@@ -118,6 +118,19 @@ class SecCap(Stream):
     def classify(self, c, o):
         return "supported" if c["ea"] < 4 and c["ia"] < 4 else "other-id"
 
+    def direct_check(self, c, o):
+        # advertise, then authenticate, then use: the algorithms that protect the UE's messages after authentication are the
+        # ones advertised before it (the harness recovers them from a protected message)
+        if c["ea"] < 3 and c["ia"] < 3:
+            if "later_panic" in o or "later_err" in o:
+                return "after advertising NEA%d/NIA%d the UE cannot authenticate and protect a message: %s" % (c["ea"], c["ia"], o.get("later_panic") or o.get("later_err"))
+            if (o.get("ea_after"), o.get("ia_after")) != (c["ea"], c["ia"]) or o.get("cap_after") != o.get("cap"):
+                return "after authenticating the UE context holds NEA%s/NIA%s (capability %s); it advertised NEA%d/NIA%d (capability %s)" % (
+                    o.get("ea_after"), o.get("ia_after"), o.get("cap_after"), c["ea"], c["ia"], o.get("cap"))
+            if "ea_used" in o and (o.get("ea_used"), o.get("ia_used")) != (c["ea"], c["ia"]):
+                return "the UE advertised NEA%d/NIA%d and protects its messages with NEA%s/NIA%s" % (c["ea"], c["ia"], o.get("ea_used"), o.get("ia_used"))
+        return None
+
 
 class C16(Check):
     pid = "C16"
